@@ -536,15 +536,14 @@ func (env *Zlisp) CallResolved(funcobj Sexp, callName string, args []Sexp) error
 	return fmt.Errorf("not a function on top of datastack: '%T/%#v'", funcobj, funcobj)
 }
 
-func (env *Zlisp) CallFunction(function *SexpFunction, nargs int) error {
-	for _, prehook := range env.before {
-		expressions, err := env.datastack.GetExpressions(nargs)
-		if err != nil {
-			return err
-		}
-		prehook(env, function.name, expressions)
-	}
-
+// checkCallArgs brings the nargs arguments on the data stack into the
+// form the body of the script function expects: by-name arguments of
+// a typed function are put in place and checked, lazy formals are
+// wrapped, optional arguments are collected, and the count is
+// checked. Every way of entering a function body goes through it,
+// the jump back to the start that replaces a self-call in tail
+// position too.
+func (env *Zlisp) checkCallArgs(function *SexpFunction, nargs int) error {
 	// do name and type checking
 	if function.inputTypes != nil && !function.varargs {
 		err := env.FunctionCallNameTypeCheck(function, &nargs)
@@ -567,6 +566,21 @@ func (env *Zlisp) CallFunction(function *SexpFunction, nargs int) error {
 		return errors.New(
 			fmt.Sprintf("%s expected %d arguments, got %d",
 				function.name, function.nargs, nargs))
+	}
+	return nil
+}
+
+func (env *Zlisp) CallFunction(function *SexpFunction, nargs int) error {
+	for _, prehook := range env.before {
+		expressions, err := env.datastack.GetExpressions(nargs)
+		if err != nil {
+			return err
+		}
+		prehook(env, function.name, expressions)
+	}
+
+	if err := env.checkCallArgs(function, nargs); err != nil {
+		return err
 	}
 
 	if env.linearstack.IsEmpty() {
